@@ -280,6 +280,11 @@ func runC18(res *lib.Result, tier string, seed int64, args []string) error {
 		var main []string
 		for i, m := range mods {
 			if strings.HasPrefix(m, "dofile:") {
+				if i%2 == 1 {
+					// the path in single quotes
+					main = append(main, fmt.Sprintf("dofile('%s')", strings.TrimPrefix(m, "dofile:")), fmt.Sprintf("print(%d)", i))
+					continue
+				}
 				main = append(main, fmt.Sprintf("dofile(\"%s\")", strings.TrimPrefix(m, "dofile:")), fmt.Sprintf("print(%d)", i))
 				continue
 			}
@@ -326,7 +331,7 @@ func runC18(res *lib.Result, tier string, seed int64, args []string) error {
 			}
 			line := main[2*i]
 			// the first character of the module string (behind the quote that follows `require` / `dofile`), as a UTF-16 column
-			bcol := strings.Index(line, "\"") + 1
+			bcol := strings.IndexAny(line, "\"'") + 1
 			if k := strings.Index(line, "require"); k >= 0 {
 				bcol = k + strings.Index(line[k:], "\"") + 1
 			}
